@@ -299,9 +299,17 @@ func (g *c18Gen) value() (string, string) {
 	case r.chance(40, 100): // a op b
 		b, _ := g.atom()
 		return a + pick(r, []string{"+", "-", "*"}) + b, "expr"
-	default: // parenthesised
+	default: // parenthesised: the full expression syntax is back inside the parentheses (bit-wise operators, the sides-less `Nd`)
 		b, _ := g.atom()
-		op := pick(r, []string{"+", "-", "*"})
+		op := pick(r, []string{"+", "-", "*", "+", "-", "*", "&", "|"})
+		if op == "&" || op == "|" { // integer operands only (anything else is a type error, not a value)
+			a, b = fmt.Sprint(r.intn(64)), fmt.Sprint(r.intn(64))
+			if r.chance(1, 4) {
+				b = g.dice()
+			}
+		} else if g.mode != 0 && r.chance(1, 8) {
+			b = fmt.Sprintf("%dd", 1+r.intn(4))
+		}
 		in := a + op + b
 		if r.chance(1, 4) {
 			in = a + " " + op + " " + b
@@ -380,7 +388,8 @@ func (g *c18Gen) assignEdit() stEdit {
 					e.VText = fmt.Sprintf("d%d", 2+r.intn(30))
 				}
 				e.VKind = "bare-dice"
-			} else if r.chance(4, 100) {
+			} else if r.chance(4, 100) && !strings.ContainsAny(e.VText, "&|") && !strings.Contains(e.VText, "d)") {
+				// (a value that does not START with a parenthesis is parsed with the st restrictions also inside its parentheses)
 				e.VText, e.VKind = "-"+e.VText, "neg"
 			}
 			e.Src = n + sp01(r, 15) + e.Delim + sp01(r, 15) + e.VText
